@@ -402,6 +402,72 @@ def root_local(n):
             return None
 
 
+def predicate_consults_keys(g):
+    """g(a, b) -> bool decides between two (key, value) entries and, on some path, compares the keys (first components)
+    of the two entries with each other: together with a comparison of the values this leaves no two different entries
+    undecided, whatever order they are met in."""
+    ps = [p for p in g["params"]]
+    if len(ps) != 2:
+        return False
+    ids = []
+    firsts = {}
+    for i, p in enumerate(ps):
+        bs = list(pat_bindings(p))
+        if p.get("k") == "Bind" and len(bs) == 1:
+            ids.append(bs[0]["local"])
+        elif p.get("k") == "Tuple" and p["pats"]:
+            ids.append(None)
+            for b in pat_bindings(p["pats"][0]):
+                firsts[b["local"]] = i
+        else:
+            return False
+
+    def first_of(n):
+        n = peel_refs(n)
+        if n.get("k") == "Field" and n["name"] == "0":
+            b = peel_refs(n["e"])
+            if b.get("k") == "Path" and b.get("local") in ids:
+                return ids.index(b["local"])
+        if n.get("k") == "Path" and n.get("local") in firsts:
+            return firsts[n["local"]]
+        return None
+    for n in walk(g["body"]):
+        if n.get("k") == "MethodCall" and n["name"] in ("abs", "round", "floor", "ceil", "trunc"):
+            return False
+    for n in walk(g["body"]):
+        a = b = None
+        if n.get("k") == "Binary" and n["op"] in ("<", ">", "<=", ">="):
+            a, b = first_of(n["l"]), first_of(n["r"])
+        elif n.get("k") == "MethodCall" and n["name"] in ("cmp", "lt", "gt", "le", "ge") and len(n["args"]) == 1:
+            a, b = first_of(n["recv"]), first_of(n["args"][0])
+        if a is not None and b is not None and a != b:
+            return True
+    return False
+
+
+def _total_predicate_near(fn, assign, body):
+    """the assignment to an outer local is governed by a call of a workspace predicate that consults the keys: in its own
+    right-hand side, or in an `if` condition / match guard of the loop body that contains it"""
+    c = fn["crate"]
+    cands = [assign["r"]]
+    for n in walk(body):
+        if n.get("k") == "If" and any(x is assign for x in walk(n)):
+            cands.append(n["c"])
+        if n.get("k") == "Match" and any(x is assign for x in walk(n)):
+            for a in n["arms"]:
+                if a.get("guard") is not None:
+                    cands.append(a["guard"])
+    for e in cands:
+        for y in walk(e):
+            if y.get("k") == "Call" and len(y["args"]) == 2:
+                f = strip(y["f"])
+                d = c.dfn(f.get("def")) if f.get("k") == "Path" else None
+                g = FN_INDEX.get((d.get("krate"), d.get("raw"))) if d else None
+                if g is not None and predicate_consults_keys(g):
+                    return g["d"]["name"]
+    return None
+
+
 def classify_effects(fn, body, loop_ids, node, chain):
     """Order-insensitive bodies only: per-entry updates, keyed inserts into other maps/sets, integer
     accumulation. Anything else that writes state outside the iteration is order-sensitive."""
@@ -436,6 +502,8 @@ def classify_effects(fn, body, loop_ids, node, chain):
             # keyed write: target is map.entry(key)/get_mut(key)/index by a key derived from the loop variable
             if keyed_target(n["l"], declared):
                 continue
+            if k == "Assign" and _total_predicate_near(fn, n, body):
+                continue  # an incumbent replaced under a predicate that decides every pair of entries (value, then key)
             problems.append("write to outer state `%s` (%s)" % (r.e(n["l"])[:60], "float accumulation" if k == "AssignOp" else "assignment"))
         elif k == "MethodCall":
             name = n["name"]
